@@ -15,6 +15,7 @@ The io_epoll / io_uring timers (kernel clock) are not covered here."""
 import json, os, re
 import vlib, k1
 from units import timers
+from units import epoll_timers
 
 LEVEL = "proof"
 
@@ -275,4 +276,5 @@ def run(chk, replay=None):
     chk.prove()
     run_k3(chk, replay)
     k1.run_unit(chk, timers.TimedContext())
+    k1.run_unit(chk, epoll_timers.EpollTimers())
     run_unsafe_loop(chk)
